@@ -46,6 +46,18 @@ func logoutChecks(l *sim.Logout, slo, cfgIssuer string) map[string]bool {
 	return V
 }
 
+// the SP's configured single-logout URL and the IdP's entity ID for the case at hand (C10's own class varies them)
+var c10SLO, c10Iss = SLO, IdPIss
+
+var c10OddSLO = []string{SLO + "?tenants=blue,green", SLO + ";v=1", "https://sp.example.test/saml/*", SLO + "#frag", "https://SP.example.test/saml/slo", SLO + "/",
+	"https://sp.example.test/saml/slo%2Fx", "https://sp.example.test/saml/s o", SLO + "|https://sp.example.test/saml/slo2", SLO + " https://sp.example.test/saml/slo2"}
+
+// nearConfigured returns a value that differs from the configured one but would match it were the configured value
+// trimmed, case-folded, read as a list or a pattern, or normalised as a URL.
+func nearConfigured(r *rand.Rand, s string) string {
+	return NearVariant(r, s, ACS, SPIss, Audience, IdPSLO, c10SLO, c10Iss)
+}
+
 func injectLogoutFault(r *rand.Rand, l *sim.Logout) string {
 	faults := []string{"version-1.1", "version-empty", "version-absent", "dest-other", "dest-nearmiss", "dest-empty", "dest-absent", "issuer-absent", "issuer-other", "issuer-empty", "issuer-nearmiss"}
 	if l.IsResponse {
@@ -62,7 +74,7 @@ func injectLogoutFault(r *rand.Rand, l *sim.Logout) string {
 	case "dest-other":
 		l.Destination = sim.S(pick(r, []string{"https://other.example.test/slo", ACS}))
 	case "dest-nearmiss":
-		l.Destination = sim.S(pick(r, []string{SLO + "/", strings.ToUpper(SLO), SLO + " ", " " + SLO, SLO[:len(SLO)-1]}))
+		l.Destination = sim.S(nearConfigured(r, c10SLO))
 	case "dest-empty":
 		l.Destination = sim.S("")
 	case "dest-absent":
@@ -74,7 +86,7 @@ func injectLogoutFault(r *rand.Rand, l *sim.Logout) string {
 	case "issuer-empty":
 		l.Issuer = sim.S("")
 	case "issuer-nearmiss":
-		l.Issuer = sim.S(pick(r, []string{IdPIss + "/", IdPIss + " ", strings.ToUpper(IdPIss)}))
+		l.Issuer = sim.S(nearConfigured(r, c10Iss))
 	case "status-absent":
 		l.HasStatus = false
 	case "statuscode-absent":
@@ -163,7 +175,9 @@ type LogoutCase struct {
 // GenLogoutCase draws a logout presentation.
 func GenLogoutCase(r *rand.Rand, w *World, isResp bool) (*LogoutCase, error) {
 	lc := &LogoutCase{Signer: pick(r, w.IdP)}
-	l := sim.GenuineLogout(w.Env, isResp)
+	env := w.Env
+	env.SLO, env.IdPIssuer = c10SLO, c10Iss
+	l := sim.GenuineLogout(env, isResp)
 	l.ID = sim.S(fmt.Sprintf("_lo%08x", r.Uint32()))
 	nf := []int{0, 0, 1, 1, 2}[r.IntN(5)]
 	for i := 0; i < nf; i++ {
@@ -226,7 +240,7 @@ func GenLogoutCase(r *rand.Rand, w *World, isResp bool) (*LogoutCase, error) {
 		switch r.IntN(2) {
 		case 0:
 			ev.Destination = sim.S("https://other-sp.example.test/slo")
-			x = x[:i] + ` xmlns:ext="urn:ext" ext:Destination="` + SLO + `"` + strings.Replace(x[i:], ` Destination="`+strOr(l.Destination)+`"`, "", 1)
+			x = x[:i] + ` xmlns:ext="urn:ext" ext:Destination="` + c10SLO + `"` + strings.Replace(x[i:], ` Destination="`+strOr(l.Destination)+`"`, "", 1)
 			x = strings.Replace(x, ">", ` Destination="https://other-sp.example.test/slo">`, 1)
 		case 1:
 			ev.Version = sim.S("1.1")
@@ -243,15 +257,15 @@ func GenLogoutCase(r *rand.Rand, w *World, isResp bool) (*LogoutCase, error) {
 		switch r.IntN(3) {
 		case 0:
 			if at := d.Root().SelectAttr("Destination"); at != nil {
-				at.Value = SLO
-				ev.Destination = sim.S(SLO)
+				at.Value = c10SLO
+				ev.Destination = sim.S(c10SLO)
 			}
 			d.Root().CreateAttr("InResponseTo", "_tampered")
 			ev.InResponseTo = sim.S("_tampered")
 		case 1:
 			for _, n := range sim.ChildrenNS(d.Root(), sim.NSA, "Issuer") {
-				n.SetText(IdPIss)
-				ev.Issuer = sim.S(IdPIss)
+				n.SetText(c10Iss)
+				ev.Issuer = sim.S(c10Iss)
 			}
 			d.Root().CreateAttr("Consent", "tampered")
 		case 2:
@@ -333,14 +347,22 @@ func runC10(c *mon.Ctx) {
 		}
 		r := cs.Rand()
 		isResp := k%2 == 0
+		c10SLO, c10Iss = SLO, IdPIss
+		if r.IntN(3) == 0 {
+			c10SLO = c10OddSLO[r.IntN(len(c10OddSLO))]
+			if r.IntN(2) == 0 {
+				c10Iss = c03OddIss[r.IntN(len(c03OddIss))]
+			}
+		}
 		lc, err := GenLogoutCase(r, w, isResp)
+		slo, cfgIssuer := c10SLO, c10Iss
+		c10SLO, c10Iss = SLO, IdPIss
 		if err != nil {
 			cs.Inconclusive("simulator-error")
 			cs.Note("%v", err)
 			continue
 		}
 		skip := r.IntN(4) == 0
-		cfgIssuer := IdPIss
 		if r.IntN(4) == 0 {
 			cfgIssuer = ""
 		}
@@ -354,7 +376,7 @@ func runC10(c *mon.Ctx) {
 		}
 		sp.SkipSignatureValidation = skip
 		sp.IdentityProviderIssuer = cfgIssuer
-		slo := SLO
+		sp.ServiceProviderSLOURL = slo
 		if r.IntN(6) == 0 {
 			slo = "" // no single-logout URL configured: only messages without a Destination are addressed to this SP
 			sp.ServiceProviderSLOURL = ""
